@@ -32,6 +32,7 @@
  *   retr ...                            -> full raw dump of conn_state_map and routing_handoff_map
  *                                          (the Go side loads them into kernel maps and runs the real
  *                                          RetrieveRoutingResult)
+ *   jan <aggressive> <age>              -> the same raw dump (the Go side runs the real janitors on it)
  *   const <name>                        -> =<value compiled into the kernel program>
  *   anything else                       -> -
  */
@@ -852,7 +853,7 @@ int main(void)
 			printf(" t=");
 			print_consumed(rt, &ct);
 			putchar('\n');
-		} else if (!strcmp(toks[0], "retr") || !strcmp(toks[0], "dump")) {
+		} else if (!strcmp(toks[0], "retr") || !strcmp(toks[0], "dump") || !strcmp(toks[0], "jan")) {
 			snap_dump("conn", m_conn, sizeof(struct tuples_key), sizeof(struct conn_state));
 			putchar(' ');
 			snap_dump("ho", m_handoff, sizeof(struct tuples_key), sizeof(struct routing_handoff_entry));
